@@ -19,9 +19,12 @@ Ltac mw := unfold moves_with, dM, dV; split; [ intros i j Hi Hj; fin3 i; fin3 j;
 Ltac rot := cunf; split; [ teq; try ring; nsatz_or_fail | try ring; nsatz_or_fail ].
 
 (** ** R_FM is orthonormal with determinant 1 *)
-Lemma RotX_rot a : is_rot (RotX ROps a). Proof. sc a. rot. Qed.
-Lemma RotY_rot a : is_rot (RotY ROps a). Proof. sc a. rot. Qed.
-Lemma RotZ_rot a : is_rot (RotZ ROps a). Proof. sc a. rot. Qed.
+Lemma RotX_rot a : is_rot (RotX ROps a).
+Proof. sc a. rot. Qed.
+Lemma RotY_rot a : is_rot (RotY ROps a).
+Proof. sc a. rot. Qed.
+Lemma RotZ_rot a : is_rot (RotZ ROps a).
+Proof. sc a. rot. Qed.
 Lemma Rxyz_rot a : is_rot (Rxyz ROps a).
 Proof. destruct a as [[a0 a1] a2]. unfold Rxyz. repeat apply rot_mul; [ apply (RotX_rot a0) | apply (RotY_rot a1) | apply (RotZ_rot a2) ]. Qed.
 Lemma quatR_rot e : v4_normSqr ROps e <> 0 -> is_rot (quatR ROps e).
@@ -33,26 +36,42 @@ Proof. destruct e as [[[e0 e1] e2] e3']. cunf. intros Hk Hn. teq; field; split; 
   replace (k * e0 * (k * e0) + k * e1 * (k * e1) + k * e2 * (k * e2) + k * e3' * (k * e3')) with (k*k*(e0 * e0 + e1 * e1 + e2 * e2 + e3' * e3')) by ring;
   apply Rmult_integral_contrapositive_currified; auto; apply Rmult_integral_contrapositive_currified; auto. Qed.
 
-Lemma Weld_rot : is_rot (fst (Weld_X ROps)). Proof. rot. Qed.
-Lemma Pin_rot q : is_rot (fst (Pin_X ROps q)). Proof. apply RotZ_rot. Qed.
-Lemma Slider_rot q : is_rot (fst (Slider_X ROps q)). Proof. rot. Qed.
-Lemma Screw_rot p q : is_rot (fst (Screw_X ROps p q)). Proof. apply RotZ_rot. Qed.
+Lemma Weld_rot : is_rot (fst (Weld_X ROps)).
+Proof. rot. Qed.
+Lemma Pin_rot q : is_rot (fst (Pin_X ROps q)).
+Proof. apply RotZ_rot. Qed.
+Lemma Slider_rot q : is_rot (fst (Slider_X ROps q)).
+Proof. rot. Qed.
+Lemma Screw_rot p q : is_rot (fst (Screw_X ROps p q)).
+Proof. apply RotZ_rot. Qed.
 Lemma Universal_rot q : is_rot (fst (Universal_X ROps q)).
 Proof. destruct q as [q0 q1]. apply rot_mul; [ apply RotX_rot | apply RotY_rot ]. Qed.
-Lemma Cylinder_rot q : is_rot (fst (Cylinder_X ROps q)). Proof. destruct q. apply RotZ_rot. Qed.
-Lemma BendStretch_rot q : is_rot (fst (BendStretch_X ROps q)). Proof. destruct q. apply RotZ_rot. Qed.
-Lemma Planar_rot q : is_rot (fst (Planar_X ROps q)). Proof. destruct q as [[? ?] ?]. apply RotZ_rot. Qed.
-Lemma Translation_rot q : is_rot (fst (Translation_X ROps q)). Proof. rot. Qed.
-Lemma Gimbal_rot q : is_rot (fst (Gimbal_X ROps q)). Proof. apply Rxyz_rot. Qed.
-Lemma Bushing_rot a p : is_rot (fst (Bushing_X ROps a p)). Proof. apply Rxyz_rot. Qed.
-Lemma Ball_rot_q e : v4_normSqr ROps e <> 0 -> is_rot (fst (Ball_Xq ROps e)). Proof. apply quatR_rot. Qed.
-Lemma Ball_rot_e a : is_rot (fst (Ball_Xe ROps a)). Proof. apply Rxyz_rot. Qed.
-Lemma Free_rot_q e p : v4_normSqr ROps e <> 0 -> is_rot (fst (Free_Xq ROps e p)). Proof. apply quatR_rot. Qed.
-Lemma Free_rot_e a p : is_rot (fst (Free_Xe ROps a p)). Proof. apply Rxyz_rot. Qed.
+Lemma Cylinder_rot q : is_rot (fst (Cylinder_X ROps q)).
+Proof. destruct q. apply RotZ_rot. Qed.
+Lemma BendStretch_rot q : is_rot (fst (BendStretch_X ROps q)).
+Proof. destruct q. apply RotZ_rot. Qed.
+Lemma Planar_rot q : is_rot (fst (Planar_X ROps q)).
+Proof. destruct q as [[? ?] ?]. apply RotZ_rot. Qed.
+Lemma Translation_rot q : is_rot (fst (Translation_X ROps q)).
+Proof. rot. Qed.
+Lemma Gimbal_rot q : is_rot (fst (Gimbal_X ROps q)).
+Proof. apply Rxyz_rot. Qed.
+Lemma Bushing_rot a p : is_rot (fst (Bushing_X ROps a p)).
+Proof. apply Rxyz_rot. Qed.
+Lemma Ball_rot_q e : v4_normSqr ROps e <> 0 -> is_rot (fst (Ball_Xq ROps e)).
+Proof. apply quatR_rot. Qed.
+Lemma Ball_rot_e a : is_rot (fst (Ball_Xe ROps a)).
+Proof. apply Rxyz_rot. Qed.
+Lemma Free_rot_q e p : v4_normSqr ROps e <> 0 -> is_rot (fst (Free_Xq ROps e p)).
+Proof. apply quatR_rot. Qed.
+Lemma Free_rot_e a p : is_rot (fst (Free_Xe ROps a p)).
+Proof. apply Rxyz_rot. Qed.
 Lemma Sph_rot o q : is_rot (fst (Sph_X ROps o q)).
 Proof. destruct q as [[q0 q1] q2]. apply rot_mul; [ apply RotZ_rot | apply RotY_rot ]. Qed.
-Lemma Ell_rot_q r e : v4_normSqr ROps e <> 0 -> is_rot (fst (Ell_Xq ROps r e)). Proof. apply quatR_rot. Qed.
-Lemma Ell_rot_e r a : is_rot (fst (Ell_Xe ROps r a)). Proof. apply Rxyz_rot. Qed.
+Lemma Ell_rot_q r e : v4_normSqr ROps e <> 0 -> is_rot (fst (Ell_Xq ROps r e)).
+Proof. apply quatR_rot. Qed.
+Lemma Ell_rot_e r a : is_rot (fst (Ell_Xe ROps r a)).
+Proof. apply Rxyz_rot. Qed.
 
 (** ** the documented forms *)
 Lemma Pin_doc q : Pin_X ROps q = (((cos q, - sin q, 0), (sin q, cos q, 0), (0, 0, 1)), (0,0,0)).
